@@ -1,6 +1,6 @@
 """Developer tool: markdown table of the seeded changes of one round, from seeded/<id>/{meta,result,result_first_pass}.json.
 
-usage: python harness/seeded_table.py 3        (round 1 = C??_1,2 ; 2 = C??_3,4 ; 3 = C??_5,6 ; 4 = C??_7,8 ; 5 = C??_9 ; 6 = C??_a)
+usage: python harness/seeded_table.py 3        (round 1 = C??_1,2 ; 2 = C??_3,4 ; 3 = C??_5,6 ; 4 = C??_7,8 ; 5 = C??_9 ; 6 = C??_a ; 7 = C??_b, ten properties)
 """
 import glob
 import json
@@ -37,7 +37,7 @@ def verdict(res):
 
 def main():
     rnd = int(sys.argv[1])
-    ks = {1: "12", 2: "34", 3: "56", 4: "78", 5: "9", 6: "a"}[rnd]
+    ks = {1: "12", 2: "34", 3: "56", 4: "78", 5: "9", 6: "a", 7: "b"}[rnd]
     rows = []
     stats = {"first": {"input": 0, "obligation": 0, "missed": 0}, "final": {"input": 0, "obligation": 0, "missed": 0}}
     for d in sorted(glob.glob(os.path.join(V, "seeded", "C??_[%s]" % ks))):
